@@ -279,7 +279,7 @@ def bool_states(fa, stops, marks=None, start=0, limit=30000, env0=None, atom=Non
     return out
 
 
-def back_slice(fa, op, terminal):
+def back_slice(fa, op, terminal, seen_out=None):
     """Backward data slice of an operand over every definition (moves, casts, references,
     aggregates, binary operations, call arguments). `terminal(block, call_term)` may return a
     hashable value for a call: that value is collected and the slice does not continue into the
@@ -317,6 +317,8 @@ def back_slice(fa, op, terminal):
                     work.append({"c": rv["place"]})
                 if rv["k"] == "agg":
                     work.extend(rv["ops"])
+    if seen_out is not None:
+        seen_out.update(seen)
     return out
 
 
